@@ -356,6 +356,7 @@ func checkC02(c *Ctx) {
 	// "503 only when none is healthy" includes backends whose window has just expired: the strategies
 	// filter on the raw flag, so every pick is preceded by the expiry re-examination (shared with C04)
 	c.recoveryIndependent()
+	c.readmissionOnlyByExpiry()
 
 	// the function in which the proxied backend is chosen: the forwarding function itself, or — when
 	// the backend is handed to it as a parameter — its caller
@@ -804,6 +805,8 @@ func checkC04(c *Ctx) {
 	c.healthMirror()
 	c.recoveryIndependent()
 	c.loopClosuresOwnTheirVariable()
+	c.readmissionOnlyByExpiry()
+	c.removalClearsNameState()
 	c.dispatchGuard()
 	c.eligibilityPredicate()
 	_ = p
@@ -883,7 +886,7 @@ func (c *Ctx) healthWriters() {
 			c.Fail("health-writers", key, pos, bad[0], bad...)
 		}
 	}
-	c.Floor("health-writers", n, 3, "functions writing backend health")
+	c.Floor("health-writers", n, 2, "functions writing backend health")
 	// MarkBackendUnhealthy is the only ejector and its callers pass the configured window
 	nCalls := 0
 	for _, fn := range p.Funcs {
@@ -1140,9 +1143,8 @@ func (c *Ctx) probeEdges() {
 				if marked {
 					return "successful probe ejects the backend"
 				}
-				if !t.Has("store IsHealthy := k:true") {
-					return "successful probe does not mark the backend healthy"
-				}
+				// (the property asks that a successful probe never ejects; whether it also confirms the
+				// flag is the balancer's business — re-admission is by expiry, readmission-only-by-expiry)
 			} else if !marked {
 				return "non-200 probe does not eject the backend"
 			}
@@ -1173,7 +1175,7 @@ func (c *Ctx) healthMirror() {
 		}
 	}
 	sort.Slice(writers, func(i, j int) bool { return writers[i].Name() < writers[j].Name() })
-	c.Floor("health-mirror-in-critical-section", len(writers), 3, "functions storing the health flag")
+	c.Floor("health-mirror-in-critical-section", len(writers), 2, "functions storing the health flag")
 	for _, fn := range writers {
 		name := fn.Name()
 		c.traceRule("health-mirror-in-critical-section", "loadbalancer.(*LoadBalancer)."+name, fn, c.healthSpec(),
@@ -1621,5 +1623,138 @@ func (c *Ctx) loopClosuresOwnTheirVariable() {
 		c.Pass(rule, "closures created in loops", "-", fmt.Sprintf("%d loop-variable captures, none deferred to a goroutine", n))
 	} else {
 		c.Fail(rule, "closures created in loops", "-", bad[0], bad...)
+	}
+}
+
+// readmissionOnlyByExpiry: "while ejected it receives no client traffic for the configured unhealthy
+// window".  Wherever the health flag of a published backend is set to true — the lazy expiry check,
+// the handling of a successful probe, any helper — the critical section that sets it has first found
+// the window expired (now > UnhealthyUntil), or found the flag true already (the store changes
+// nothing).  A probe that was in flight while the backend was ejected must not cut the window short.
+func (c *Ctx) readmissionOnlyByExpiry() {
+	p := c.P
+	rule := "readmission-only-by-expiry"
+	fresh := p.Freshness()
+	n := 0
+	for _, fn := range p.Funcs {
+		if !p.InScope(fn) {
+			continue
+		}
+		has := false
+		instrsOf(fn, func(in ssa.Instruction) {
+			if k, st := storeKey(in); k == beT+"IsHealthy" {
+				if b, ok := constBool(st.Val); ok && b && !fresh.IsFresh(st.Addr.(*ssa.FieldAddr).X, 0) {
+					has = true
+				}
+			}
+		})
+		if !has {
+			continue
+		}
+		n++
+		c.traceRule(rule, p.FuncKey(fn), fn, c.healthSpec(),
+			"every path that sets the health flag has found, in that write-locked section, the window expired or the flag already true",
+			func(t *Trace) string {
+				for i, it := range t.Items {
+					if it.Label != "store IsHealthy := k:true" {
+						continue
+					}
+					ok := false
+					for j := i - 1; j >= 0; j-- {
+						l := t.Items[j].Label
+						if strings.HasPrefix(l, "lock:be:") || strings.HasPrefix(l, "unlock:be:") {
+							break
+						}
+						r := c.condRel(t.Items[j])
+						if o, okO := r.Orient("now", beT+"UnhealthyUntil"); okO && o.Lo == 1 && o.Hi == posInf {
+							ok = true
+						}
+						if o, okO := r.Orient(beT+"IsHealthy", ""); okO && o.Y == "" && o.Pred == "" && !o.Neq && o.Lo == 1 && o.Hi == 1 {
+							ok = true
+						}
+					}
+					if !ok {
+						return "the health flag is set to true without the window having been found expired in that critical section: a backend ejected while this code was on its way (a probe in flight, a helper called late) is re-admitted inside its unhealthy window and receives client traffic again"
+					}
+				}
+				return ""
+			})
+	}
+	c.Floor(rule, n, 1, "functions that set the health flag to true")
+}
+
+// removalClearsNameState: passive strikes are kept per backend *name*.  A name that is removed and
+// registered again is a new backend: it must start with a clean record, or the strikes of its
+// predecessor eject it before it has produced unhealthy_threshold failures of its own.  Every map of
+// the balancer that is updated under a backend's name is therefore also deleted from on the removal
+// path (RemoveBackend or what it calls).
+func (c *Ctx) removalClearsNameState() {
+	p := c.P
+	rule := "removal-clears-name-state"
+	// maps written under Backend.Name
+	type site struct {
+		key string
+		at  ssa.Instruction
+	}
+	keyed := map[string]site{}
+	for _, fn := range p.Funcs {
+		pk := fnPkg(fn)
+		if pk == nil || !strings.HasSuffix(pk.Pkg.Path(), "/internal/loadbalancer") {
+			continue
+		}
+		instrsOf(fn, func(in ssa.Instruction) {
+			mu, ok := in.(*ssa.MapUpdate)
+			if !ok || !strings.Contains(p.Desc(mu.Key, nil), "loadbalancer.Backend.Name") {
+				return
+			}
+			if ld, isLoad := mu.Map.(*ssa.UnOp); isLoad {
+				if fa, isFA := ld.X.(*ssa.FieldAddr); isFA {
+					if fr, okF := fieldRefOf(fa); okF {
+						if _, seen := keyed[fr.Key()]; !seen {
+							keyed[fr.Key()] = site{fr.Key(), mu}
+						}
+					}
+				}
+			}
+		})
+	}
+	rb := p.Fn("internal/loadbalancer", "LoadBalancer", "RemoveBackend")
+	if rb == nil {
+		c.Missing(rule, "loadbalancer.(*LoadBalancer).RemoveBackend")
+		return
+	}
+	deleted := map[string]bool{}
+	seenF := map[*ssa.Function]bool{}
+	var scan func(f *ssa.Function, d int)
+	scan = func(f *ssa.Function, d int) {
+		if f == nil || seenF[f] || d > 3 || f.Blocks == nil || !p.IsHelios(f) {
+			return
+		}
+		seenF[f] = true
+		for _, ci := range callsIn(f) {
+			if CalleeName(ci) == "builtin:delete" {
+				if ld, isLoad := ci.Common().Args[0].(*ssa.UnOp); isLoad {
+					if fa, isFA := ld.X.(*ssa.FieldAddr); isFA {
+						if fr, okF := fieldRefOf(fa); okF {
+							deleted[fr.Key()] = true
+						}
+					}
+				}
+			}
+			scan(StaticFn(ci), d+1)
+		}
+	}
+	scan(rb, 0)
+	var names []string
+	for k := range keyed {
+		names = append(names, k)
+	}
+	sort.Strings(names)
+	for _, k := range names {
+		c.Check(deleted[k], rule, k, p.InstrPos(keyed[k].at), "entries written under a backend's name are deleted when the name is removed",
+			"the map "+k+" is updated under a backend's name but the removal path never deletes from it: a backend removed and registered again under the same name inherits the old entry (passive strikes: it is ejected before unhealthy_threshold failures of its own)")
+	}
+	if len(names) == 0 {
+		c.Pass(rule, "loadbalancer name-keyed maps", "-", "no balancer state is keyed by backend name")
 	}
 }
